@@ -463,4 +463,56 @@ let () =
         Array.iter (fun v -> emit (Printf.sprintf "c18.corpus %s %d %d" v (seed * 31 + j) (if n > 4 then 20000 else 1500)) "ok" "ok") vs
       done)
 
+(* c18.secoff be owed version format name form <debug_info hex> <nrel> <rel>
+   one unit with one DIE carrying one attribute (name, form) whose field holds a section offset and carries a
+   relocation; the harness builds the matching .debug_abbrev.  Model = Reloc.p_attr_word (which uses
+   Attr.allow_section_offset) after skipping to the field.  owed = the DWARF standard makes the field a section
+   offset (DW_FORM_sec_offset, or data4/data8 of the unit's format for a DWARF 2/3 loclistptr/lineptr/macptr/
+   rangelistptr attribute), so that transparency is owed by the property itself. *)
+let secoff_names = [ 0x02; 0x10; 0x19; 0x2a; 0x2c; 0x40; 0x43; 0x79; 0x46; 0x48; 0x4a; 0x4d; 0x55; 0x38;
+                     (* controls: never a section offset *) 0x3b; 0x0b; 0x12 ]
+let dwarf3_list = [ 0x02; 0x10; 0x19; 0x2a; 0x2c; 0x40; 0x43; 0x46; 0x48; 0x4a; 0x4d; 0x55; 0x38 ]
+
+let secoff_case ?(must = false) emit be ver fmt64 name form (v : Z.t) impl (add : Z.t) with_rel =
+  let w = if fmt64 then 8 else 4 in
+  let fw = if form = 6 then 4 else if form = 7 then 8 else w in
+  let field = enc be v fw in
+  let body_v24 = enc be (Z.of_int ver) 2 @ enc be Z.zero w @ [8] in
+  let body_v5 = enc be (Z.of_int ver) 2 @ [1; 8] @ enc be Z.zero w in
+  let body = (if ver >= 5 then body_v5 else body_v24) @ [1] @ field in
+  let il = if fmt64 then enc be (Z.of_string "0xffffffff") 4 @ enc be (Z.of_int (List.length body)) 8
+           else enc be (Z.of_int (List.length body)) 4 in
+  let l = il @ body in
+  let foff = List.length l - fw in
+  let rs = if with_rel then [mk_rrel foff fw impl add] else [] in
+  let bs = bytes_of_ints l in
+  let p = PSkip (n_of_int foff, p_attr_word fmt64 (n_of_int ver) (n_of_int name) (n_of_int form)) in
+  let owed = form = 0x17 || ((ver = 2 || ver = 3) && List.mem name dwarf3_list && ((form = 6 && not fmt64) || (form = 7 && fmt64))) in
+  let (mowed, _, _, _) = model_both ~full:false be true rs bs p in
+  (* in the grid (fitting values) the model must grant what the standard owes, or the model itself is wrong;
+     in the random part a value that does not fit its field has no pre-applied counterpart *)
+  if must && owed && not mowed then failwith "c18.secoff: model does not grant an owed case";
+  let owed = owed && mowed in
+  let case = Printf.sprintf "c18.secoff %s %s %d %d %d %d %s %s" (bit be) (bit owed) ver (if fmt64 then 8 else 4) name form (hex_of_ints l) (rels_tokens rs) in
+  both emit case (fun dbg ->
+    let (_, rr, pr, s) = model_both ~full:false be dbg rs bs p in
+    Printf.sprintf "r %s p %s s %s" rr pr s)
+
+let () =
+  register "c18.secoff" ~doc:"legacy section-offset rule of parse_attribute: versions 2..5 x both formats x every name of allow_section_offset (+controls) x data4/data8/sec_offset, a relocation on the field, RelocateReader vs pre-applied copy vs model"
+    (fun ~seed ~n emit ->
+      List.iter (fun be -> List.iter (fun ver -> List.iter (fun fmt64 -> List.iter (fun name -> List.iter (fun form ->
+        secoff_case ~must:true emit be ver fmt64 name form (Z.of_int 0x34) true (Z.of_int 0x1000) true;
+        secoff_case ~must:true emit be ver fmt64 name form Z.zero false (Z.of_int 0x2468) true;
+        secoff_case ~must:true emit be ver fmt64 name form (Z.of_int 0x77) false Z.zero false)
+        [6; 7; 0x17]) secoff_names) [false; true]) [2; 3; 4; 5]) [false; true];
+      let r = mk_rng seed in
+      for _ = 1 to n do
+        let ver = 2 + rand_int r 4 in
+        let name = if rand_int r 4 = 0 then 1 + rand_int r 0x8b else List.nth secoff_names (rand_int r (List.length secoff_names)) in
+        let form = pick r [| 6; 7; 0x17 |] in
+        let fw = 4 in
+        secoff_case emit (rand_bool r) ver (rand_bool r) name form (gen_addend_u r fw) (rand_bool r) (gen_addend_u r fw) (rand_int r 5 <> 0)
+      done)
+
 let init () = ()
